@@ -122,7 +122,7 @@ Lemma fresh_set_grad a s : Fresh s -> Fresh (fst (set_grad a s)).
 Proof.
   intros F. destruct a as [|sh|]; unfold set_grad; [| |exact F].
   - destruct F as [[FE [FG FH]] FC]. fresh_unfold; cbn. repeat split; auto. intros t H; discriminate.
-  - destruct (prod sh =? 3 * n_atoms s); [|exact F].
+  - destruct (nl_eqb sh [n_atoms s; 3] || nl_eqb sh [3 * n_atoms s]); [|exact F].
     destruct F as [[FE [FG FH]] FC]. fresh_unfold; cbn. repeat split; auto.
     intros t H; now inversion H.
 Qed.
@@ -188,6 +188,7 @@ Proof.
   intros F. destruct o; cbn [step].
   - now apply fresh_set_atoms.
   - now apply fresh_set_coords.
+  - exact F.
   - now apply fresh_translate.
   - now apply fresh_rotate.
   - now apply fresh_centre.
@@ -223,7 +224,7 @@ Proof.
     destruct big; [cbn; intros t H; discriminate|destruct pure; [exact W|cbn; intros t H; discriminate]].
   - cbn; intros t H; discriminate.
   - destruct some; exact W.
-  - destruct a as [|sh|]; unfold set_grad; try exact W. destruct (prod sh =? 3 * n_atoms s); exact W.
+  - destruct a as [|sh|]; unfold set_grad; try exact W. destruct (nl_eqb sh [n_atoms s; 3] || nl_eqb sh [3 * n_atoms s]); exact W.
   - destruct a as [|sh|]; unfold set_hess; try exact W; [cbn; intros t H; discriminate|].
     destruct (nl_eqb sh [3 * n_atoms s; 3 * n_atoms s]); [cbn; intros t H; discriminate|exact W].
   - cbn; intros t H; discriminate.
@@ -243,6 +244,31 @@ Qed.
 
 Lemma cachewf_init ls e m : CacheWf (init ls e m).
 Proof. intros t H; discriminate. Qed.
+
+(* ---------- the multiplicity stays positive ---------- *)
+Lemma mult_pos_step s o : (0 < mult s)%Z -> (0 < mult (fst (step s o)))%Z.
+Proof.
+  intros P. destruct o; cbn [step]; try exact P.
+  - unfold set_atoms. destruct (nl_eqb ls (labels s)); [|exact P].
+    unfold set_coords. destruct (negb (length ls =? n_atoms s)); [exact P|].
+    destruct big; [exact P|destruct pure; exact P].
+  - unfold set_coords. destruct (negb (rows =? n_atoms s)); [exact P|].
+    destruct big; [exact P|destruct pure; exact P].
+  - destruct some; exact P.
+  - destruct a as [|sh|]; unfold set_grad; try exact P. destruct (nl_eqb sh [n_atoms s; 3] || nl_eqb sh [3 * n_atoms s]); exact P.
+  - destruct a as [|sh|]; unfold set_hess; try exact P.
+    destruct (nl_eqb sh [3 * n_atoms s; 3 * n_atoms s]); exact P.
+  - unfold reorder. destruct (mapping_ok (n_atoms s) m); exact P.
+  - destruct q; try exact P. cbn. destruct (hess s); exact P.
+  - unfold thermo. destruct (hess s) eqn:E; [|exact P]. cbn. rewrite E. exact P.
+  - destruct v as [z|]; unfold set_mult; [|exact P]. destruct (0 <? z)%Z eqn:E; [|exact P].
+    cbn. now apply Z.ltb_lt.
+Qed.
+
+Lemma mult_pos_run ops : forall s, (0 < mult s)%Z -> (0 < mult (run s ops))%Z.
+Proof.
+  induction ops as [|o r IH]; intros s P; [exact P|]. unfold run; cbn. apply IH. now apply mult_pos_step.
+Qed.
 
 (* ---------- several species: an operation on one leaves the others unchanged ---------- *)
 Lemma nth_error_replace_other {A} (x : A) : forall l i j, i <> j -> nth_error (replace_nth i x l) j = nth_error l j.
